@@ -252,6 +252,19 @@ class FermionicArray(AbelianArray):
             other, fn, inplace=True, **kwargs
         )
 
+    def _do_reduction(self, fn):
+        """Need to sync phases before performing reductions."""
+        return AbelianArray._do_reduction(self.phase_sync(), fn)
+
+    def _do_unary_op(self, fn, inplace=False):
+        """Need to sync phases before performing elementwise operations."""
+        new = self.phase_sync(inplace=inplace)
+        return AbelianArray._do_unary_op(new, fn, inplace=True)
+
+    def clip(self, a_min, a_max):
+        """Clip the values in the array, with lazy phases multiplied in."""
+        return AbelianArray.clip(self.phase_sync(), a_min, a_max)
+
     def _map_blocks(self, fn_block=None, fn_sector=None):
         super()._map_blocks(fn_block, fn_sector)
         if fn_sector is not None:
